@@ -35,7 +35,7 @@ MANIFEST = {
     'text': 'Every generated definition is classified legal/illegal by construction; legal ones must be accepted and encode under '
     'every session kind to the values as written (no wrap, no truncation, no exception), illegal ones must be refused at '
     'parse time with an error message.',
-    'note': 'trusted base: the boundary table in this file, refwire decoder; flow / vpls / attribute-only definitions are exercised for acceptance and exceptions only',
+    'note': 'trusted base: the boundary table in this file, refwire decoder; flow components / actions / NLRI lengths and VPLS fields are decoded by refwire.flow and a small VPLS decoder; one long-lived API object takes every definition (flat and block form) followed by a probe command and a flow rule of each family',
 }
 SHARD_TIMEOUT = {'quick': 400, 'thorough': 2400}
 
